@@ -107,6 +107,8 @@ def enabled_ops(w, users, sps, nqs, fmts):
             for f in fmts:
                 ops.append(('issue', u, sp, f))
                 ops.append(('construct', u, sp, f))
+            # a login the way Server does it, with a NameIDPolicy whose SPNameQualifier (an affiliation) is not the SP
+            ops.append(('issue', u, sp, 'P', 'affil'))
         ops.append(('remove_local', u))
         # an identifier supplied from outside (store()), with and without surrounding white space; a text is stored
         # at most once in a history (double storage is the subject of the removal layer below)
@@ -175,9 +177,10 @@ def apply_op(w, op):
                     ref.issue(u, n)
         elif k == 'issue':
             u, sp, f = op[1], op[2], FMT[op[3]]
-            cands = [t for t in ref.of_user(u) if ref.live[t][1][1] == sp and ref.live[t][1][2] == f]
-            pol = NameIDPolicy(format=f, sp_name_qualifier=sp)
-            found = db.find_nameid(u, sp_name_qualifier=sp, format=f)
+            snq = op[4] if len(op) > 4 else sp       # Server: the policy's SPNameQualifier if it has one, else the SP
+            cands = [t for t in ref.of_user(u) if ref.live[t][1][1] == snq and ref.live[t][1][2] == f]
+            pol = NameIDPolicy(format=f, sp_name_qualifier=snq)
+            found = db.find_nameid(u, sp_name_qualifier=snq, format=f)
             if found:
                 n = found[0]
                 if n.text not in cands:
@@ -188,6 +191,8 @@ def apply_op(w, op):
                 n = db.construct_nameid(u, None, sp, pol)
                 if n.text in ref.ever:
                     bad.append('issue-not-fresh')
+                if (n.sp_name_qualifier or '') != snq or n.format != f:
+                    bad.append('issued-identifier-not-for-the-requested-qualifier-or-format')
                 ref.issue(u, n)
         elif k == 'construct':
             u, sp, f = op[1], op[2], FMT[op[3]]
@@ -446,9 +451,35 @@ def removal_chunk(first):
     return n, list(uniq.values())
 
 
+# ---------------------------------------------------------------- many identifiers
+
+def many_eval(n):
+    """One user holding a persistent identifier and n transient ones: all of them keep resolving, the persistent one
+    stays the same."""
+    from saml2_tophat.ident import IdentDB
+    env.reset_rng()
+    db = IdentDB({}, domain='example.org')
+    first = db.persistent_nameid('u1', 'spA', '')
+    other = db.persistent_nameid('u2', 'spA', '')
+    ids = [first]
+    for i in range(n):
+        ids.append(db.transient_nameid('u1', 'spA', ''))
+    for i, x in enumerate(ids):
+        if db.find_local_id(x) != 'u1':
+            return 'identifier-%d-of-%d-no-longer-resolves' % (i, len(ids))
+    if db.persistent_nameid('u1', 'spA', '').text != first.text:
+        return 'persistent-identifier-changed-after-%d-transients' % n
+    if db.find_local_id(other) != 'u2':
+        return 'other-users-identifier-lost'
+    if len(set(x.text for x in ids)) != len(ids):
+        return 'transient-not-fresh'
+    return None
+
+
 # ---------------------------------------------------------------- encoding table
 
-ALPH = ['a', ',', '=', '%', ' ', '"', 'é', '/', '+', '0', '&', '%2C', '1=x']
+ALPH = ['a', ',', '=', '%', ' ', '"', 'é', '/', '+', '0', '&', '%2C', '1=x',
+        'e\u0308', '\u212b', '\u2126']       # not in NFC: decomposed e-diaeresis, ANGSTROM SIGN, OHM SIGN
 
 
 def strings(n):
@@ -538,6 +569,10 @@ def run(ctx):
             if bad or k1 != canon_key(w2):
                 ctx.violation({'kind': 'shelve-differs', 'ops': h, 'why': ';'.join(bad)}, {})
             shelf_n += 1
+    # many identifiers of one user
+    for n_, why in zip((10, 65, 70, 300, 1100), ctx.pmap(many_eval, [10, 65, 70, 300, 1100], chunksize=1)):
+        if why:
+            ctx.violation({'kind': 'many', 'why': why.split('-of-')[0] if '-of-' in why else why, 'count': n_}, {'detail': why})
     # removal layer
     CFG['rdepth'] = 4 if not ctx.thorough else 5
     rem = ctx.pmap(removal_chunk, R_OPS, chunksize=1)
@@ -561,7 +596,7 @@ def run(ctx):
             'exhaustive': not capped, 'max_depth': depth, 'states_by_depth': states_by_depth,
             'frontier_at_bound': len(frontier), 'encoding_cases': n_enc, 'shelve_histories': shelf_n, 'removal_sequences': n_rem,
             'alphabet': {'users': users, 'sps': sps, 'name_qualifiers': nqs, 'formats': fmts},
-            'rule': 'BFS over operation histories on a fresh real IdentDB (every history replayed on implementation and reference); ops: transient/persistent/issue(find-then-construct)/construct(force-new)/store(externally supplied text, with leading / trailing blank)/remove_local/remove_remote/manage(new|terminate)/map(allow_create) over identifiers issued so far + one never-issued; states merged, from depth 3 on, by canonical key (db content and reference under renaming of opaque identifier texts, per-user storage order kept); after every step every live/withdrawn/never-issued identifier and every user listing is compared with the reference.  Removal layer: every sequence of length <= %d over store(u1,X)/store(u1,Y)/store(u2,Z)/persistent/transient/remove_local(u1)/remove_remote(X) (double storage allowed): after remove_local nothing of u1 resolves or is listed, u2 is untouched, the next identifier resolves.  Encoding table: code/decode over all NameIDs with fields from strings of length <= %d over %r' % (CFG['rdepth'], 1 if not ctx.thorough else 2, ALPH),
+            'rule': 'BFS over operation histories on a fresh real IdentDB (every history replayed on implementation and reference); ops: transient/persistent/issue(find-then-construct, also with a NameIDPolicy SPNameQualifier that is not the SP)/construct(force-new)/store(externally supplied text, with leading / trailing blank)/remove_local/remove_remote/manage(new|terminate)/map(allow_create) over identifiers issued so far + one never-issued; states merged, from depth 3 on, by canonical key (db content and reference under renaming of opaque identifier texts, per-user storage order kept); after every step every live/withdrawn/never-issued identifier and every user listing is compared with the reference.  One user with a persistent and 10/65/70/300/1100 transient identifiers: all keep resolving.  Removal layer: every sequence of length <= %d over store(u1,X)/store(u1,Y)/store(u2,Z)/persistent/transient/remove_local(u1)/remove_remote(X) (double storage allowed): after remove_local nothing of u1 resolves or is listed, u2 is untouched, the next identifier resolves.  Encoding table: code/decode over all NameIDs with fields from strings of length <= %d over %r' % (CFG['rdepth'], 1 if not ctx.thorough else 2, ALPH),
         },
         'assumptions': ['identifier texts are opaque to IdentDB (justifies canonical renaming)', 'deterministic id source (vp/env.py) replaces random.SystemRandom',
                         'user ids u1/u2 never collide with identifier texts (the shared key space is only reachable with adversarial user ids)'],
@@ -577,6 +612,9 @@ def replay(ctx, w):
                      sp_provided_id=f[3] or None, text=f[4] or None)
         d = decode(code(nid))
         return {'violation': fields(d) != tuple(x or None for x in f), 'code': code(nid)}
+    if w.get('kind') == 'many':
+        why = many_eval(w['count'])
+        return {'violation': bool(why), 'why': why}
     if w.get('kind') == 'removal':
         r = removal_eval([tuple(o) for o in w['ops']])
         return {'violation': bool(r), 'why': r}
